@@ -13,20 +13,24 @@ RULE = ('requester: a lease-honouring real client against a raw server that send
         'unbounded / 1 / 3. A reference lease model is replayed over the observed order of LEASE receptions and API '
         'calls and must predict exactly which requests enter the send path, in which order and under which lease. '
         'responder: a real server with SingleLeasePublisher or a scripted multi-lease publisher against a raw client; '
-        'LEASE frames must equal the published leases (count, ttl in ms). non-trivial = a requester case with >= 2 leases '
+        'LEASE frames must equal the published leases (count, ttl in ms). reconnect: a lease-honouring client with a '
+        'transport provider (C17 harness: 1..3 connection endings of all causes) against real servers that publish one '
+        'lease after 0..4 s; on every connection no request may leave before that connection\'s first LEASE and none '
+        'beyond its count / ttl. non-trivial = a requester case with >= 2 leases '
         'and >= 1 request retained in the queue; distinct by case digest.')
 ASSUMPTIONS = ['a request is admitted at the moment its frame enters the send path; the virtual link has no latency in '
                'these runs so reception time = send time of a LEASE',
                'a lease is valid while now < reception + ttl (strictly), a request made when the retention queue is full '
                'raises to the caller and is not counted']
 DECIDING_REQUIRED = ('requests_admitted_checked', 'requests_retained', 'leases_received', 'lease_frames_compared',
-                     'requests_at_expiry_boundary')
+                     'requests_at_expiry_boundary', 'connections_with_lease_checked')
 BUDGET_S = {'quick': 90, 'thorough': 1500}
 MAXN = 0x7FFFFFFF
 
 
 def plan(tier, seed):
-    return [('requester', 6000 if tier == 'quick' else 60000), ('responder', 1000 if tier == 'quick' else 10000)]
+    return [('requester', 6000 if tier == 'quick' else 60000), ('responder', 1000 if tier == 'quick' else 10000),
+            ('reconnect', 600 if tier == 'quick' else 6000)]
 
 
 def _iid_of(f):
@@ -255,10 +259,54 @@ def gen_requester(rng):
             'queue_size': rng.choice([0, 0, 1, 3]), 'timeline': timeline, 'tail': 2.0}
 
 
+def run_reconnect(idx, rng):
+    """A lease-honouring client that reconnects (C17's harness): on every connection no request may leave before
+    that connection's first LEASE arrived, and no more than it grants."""
+    from .. import vloop
+    from ..runner import short_hash
+    from ..minicodec import brief
+    from . import c17
+    desc = c17.gen_case(rng)
+    desc['lease'] = [rng.choice([0.0, 0.3, 1.0, 2.0, 4.0]), rng.choice([1, 2, 5, 100]), rng.choice([500, 5000, 60000])]
+    world, rounds, conns = vloop.run(c17._run(rng, desc))
+    wit = []
+    st = {'requests_admitted_checked': 0, 'requests_retained': 0, 'leases_received': 0, 'requests_at_expiry_boundary': 0,
+          'lease_frames_compared': 0, 'connections_with_lease_checked': 0}
+    for c in conns:
+        n = c['index']
+        lease_at = None
+        sent = 0
+        for e in world.events:
+            if e['kind'] != 'wire' or e.get('conn') != n or e['ep'] != 'c':
+                continue
+            f = e['f']
+            if e['dir'] == 'recv' and f['type'] == 'LEASE':
+                st['leases_received'] += 1
+                if lease_at is None:
+                    lease_at = e['t']
+            elif e['dir'] == 'send' and f['type'] in ('REQUEST_RESPONSE', 'REQUEST_FNF', 'REQUEST_STREAM', 'REQUEST_CHANNEL'):
+                sent += 1
+                st['requests_admitted_checked'] += 1
+                if lease_at is None:
+                    wit.append({'clause': 'request-before-first-lease-of-connection',
+                                'detail': {'connection': n, 'frame': brief(f), 'case': desc}})
+                    break
+                if sent > desc['lease'][1] or e['t'] - lease_at > desc['lease'][2] / 1000.0 + 1e-6:
+                    wit.append({'clause': 'request-outside-lease',
+                                'detail': {'connection': n, 'frame': brief(f), 'requests_sent': sent,
+                                           'since_lease_s': e['t'] - lease_at, 'case': desc}})
+                    break
+        st['connections_with_lease_checked'] += 1
+    return {'evals': 1, 'nt_keys': [short_hash(desc)] if len(conns) >= 2 else [], 'deciding': st, 'witnesses': wit[:2],
+            'counts': {'reconnect_lease_runs': 1, 'connections': len(conns)}, 'sample': desc}
+
+
 def run_case(gen, idx, rng, tier):
     assert_repo()
     from .. import vloop
     from ..runner import short_hash
+    if gen == 'reconnect':
+        return run_reconnect(idx, rng)
     if gen == 'requester':
         desc = gen_requester(rng)
         world, t0 = vloop.run(_requester(rng, desc))
